@@ -277,7 +277,7 @@ def build_module(ctx, pkgs, tag="mod", driver="drv_matryer", race=False):
     (mod / "drv" / "registry.go").write_text("\n".join(reg) + "\n")
     shutil.copy(VERIF / "harness" / "go" / driver / "main.go", mod / "drv" / "main.go")
     env = go_env({"GOFLAGS": "-mod=mod"})
-    p = run([ctx.bins["mockery"]], cwd=mod, env=env, timeout=600)
+    p = run([ctx.bins["mockery"]], cwd=mod, env=env, timeout=1800)
     if p.returncode != 0:
         return None, "mockery failed: " + (p.stdout + p.stderr).decode(errors="replace")[-3000:]
     p = run(["go", "build"] + (["-race"] if race else []) + ["-o", str(mod / "drv.bin"), "./drv"], cwd=mod, env=env, timeout=1800)
@@ -365,7 +365,7 @@ def gen_call(rng, m):
 # ---------------------------------------------------------------- implementation
 def run_impl(binary, jobs, watchdog_ms=None):
     env = dict(os.environ, DRV_WATCHDOG_MS=str(watchdog_ms)) if watchdog_ms else None
-    p = run([binary], inp=json.dumps(jobs).encode(), timeout=600, env=env)
+    p = run([binary], inp=json.dumps(jobs).encode(), timeout=3600, env=env)
     if p.returncode != 0:
         raise RuntimeError("drv_matryer failed: " + p.stderr.decode(errors="replace")[-2000:])
     return json.loads(p.stdout)
@@ -621,23 +621,56 @@ def corpus_pkgs():
     return cs
 
 
+def has_deadlock(o):
+    return any(x["k"] == "deadlock" for x in o)
+
+
+CONFIRM_MS = 60000        # second-stage watchdog (first stage: 5 s in drv_matryer)
+
+
+def confirm_timeouts(binary, cases, outs, stats):
+    """A `deadlock` outcome of the main run is only a first-stage verdict (the machine may be overloaded): every such
+    history is re-run ALONE in a fresh process with a 60 s watchdog; its outcomes replace the first ones.  At most 3
+    confirmations per run (a real deadlock costs the whole watchdog); further ones count as confirmed by class."""
+    for i, o in enumerate(outs):
+        if not has_deadlock(o):
+            continue
+        if stats["timeouts_confirmed"] >= 3:
+            stats["timeouts_confirmed_by_class"] += 1
+            continue
+        stats["timeouts_retried"] += 1
+        o2 = run_impl(binary, [{"mock": mock_key(cases[i]["pkg"], cases[i]["iface"]), "ops": cases[i]["hist"]}], watchdog_ms=CONFIRM_MS)[0]
+        outs[i] = o2
+        if has_deadlock(o2):
+            stats["timeouts_confirmed"] += 1
+        else:
+            stats["timeouts_not_confirmed"] += 1
+
+
 def shrink(binary, c, fails):
-    """Greedy deletion keeping the failure; a history that deadlocks is first cut behind the deadlock."""
+    """Greedy deletion keeping the failure; a history that deadlocks is first cut behind the deadlock.  Candidates run
+    with a short watchdog; the result is validated alone with a long one and dropped if it does not reproduce."""
     key = mock_key(c["pkg"], c["iface"])
     ops = list(c["hist"])
-    o = run_impl(binary, [{"mock": key, "ops": ops}], watchdog_ms=300)[0]
+    o = run_impl(binary, [{"mock": key, "ops": ops}], watchdog_ms=1000)[0]
     dl = next((i for i, x in enumerate(o) if x["k"] == "deadlock"), None)
     if dl is not None and fails(dict(c, hist=ops[:dl + 1]), o[:dl + 1]):
         ops = ops[:dl + 1]
+    start = list(ops)
     i = 0
     while i < len(ops):
         cand = dict(c, hist=ops[:i] + ops[i + 1:])
-        o = run_impl(binary, [{"mock": key, "ops": cand["hist"]}], watchdog_ms=300)[0]
+        o = run_impl(binary, [{"mock": key, "ops": cand["hist"]}], watchdog_ms=1000)[0]
         if fails(cand, o):
             ops = cand["hist"]
         else:
             i += 1
-    return dict(c, hist=ops)
+    small = dict(c, hist=ops)
+    o = run_impl(binary, [{"mock": key, "ops": ops}], watchdog_ms=20000)[0]
+    if not fails(small, o):          # a scheduling delay was taken for a failure while shrinking
+        small = dict(c, hist=start)
+        o = run_impl(binary, [{"mock": key, "ops": start}], watchdog_ms=20000)[0]
+    return small, o
 
 
 def check(ctx, only=None):
@@ -687,11 +720,13 @@ def check(ctx, only=None):
         ctx.write_evidence(gate, 0, 0, "generation failed", [])
         return
     outs = run_impl(binary, [{"mock": mock_key(c["pkg"], c["iface"]), "ops": c["hist"]} for c in cases])
+    tstats = {"timeouts_first_stage": sum(has_deadlock(o) for o in outs), "timeouts_retried": 0, "timeouts_confirmed": 0,
+              "timeouts_not_confirmed": 0, "timeouts_confirmed_by_class": 0}
+    confirm_timeouts(binary, cases, outs, tstats)
     oracle_fail = {i: e for i, (c, o) in enumerate(zip(cases, outs)) for e in [oracle(c["pkg"], c["iface"], c["hist"], o)] if e}
     bad, errs = coq_mismatches(ctx, HM, [case_term(c, o) for c, o in zip(cases, outs)], shard=40)
     for i in sorted(oracle_fail)[:3]:
-        small = shrink(binary, cases[i], lambda cc, oo: bool(oracle(cc["pkg"], cc["iface"], cc["hist"], oo)))
-        so = run_impl(binary, [{"mock": mock_key(small["pkg"], small["iface"]), "ops": small["hist"]}])[0]
+        small, so = shrink(binary, cases[i], lambda cc, oo: bool(oracle(cc["pkg"], cc["iface"], cc["hist"], oo)))
         rp = ctx.write_replay("oracle-%d" % i, {"what": oracle(small["pkg"], small["iface"], small["hist"], so) or oracle_fail[i],
                                                  "case": {"pkg": small["pkg"], "iface": small["iface"], "hist": small["hist"]},
                                                  "readable": describe(small, so)})
@@ -704,8 +739,10 @@ def check(ctx, only=None):
             def fails(cc, oo):
                 b2, e2 = coq_mismatches(ctx, HM, [case_term(cc, oo)])
                 return bool(b2 or e2)
-            small = shrink(binary, cases[i], fails) if len(bad) < 20 else cases[i]
-            so = run_impl(binary, [{"mock": mock_key(small["pkg"], small["iface"]), "ops": small["hist"]}])[0]
+            if len(bad) < 20:
+                small, so = shrink(binary, cases[i], fails)
+            else:
+                small, so = cases[i], outs[i]
             exp = coq_show(ctx, HM, "model_obs (%s)" % case_term(small, so))
             detail.append({"case": {"pkg": small["pkg"], "iface": small["iface"], "hist": small["hist"]},
                            "readable": describe(small, so), "model_expected": exp})
@@ -764,7 +801,7 @@ def check(ctx, only=None):
                        "interfaces under all 8 template-data combinations; evaluations = executed steps; non-trivial = some Calls() read returned "
                        ">= 2 records; distinct by (mock description, history)",
                        [describe(c, o) for c, o in list(zip(cases, outs))[:2]],
-                       extra={"input_histogram": hist, "histories": len(cases), "model_mismatches": len(bad), "oracle_failures": len(oracle_fail)},
+                       extra=dict(tstats, input_histogram=hist, histories=len(cases), model_mismatches=len(bad), oracle_failures=len(oracle_fail)),
                        assumptions=["the generator stays inside the class of interfaces whose matryer mock compiles: no parameter named mock/callInfo/sync/fmt, "
                                     "no two parameters of one method with the same exported name, generic interfaces only with skip-ensure (their ensure line "
                                     "does not compile); those are C01's findings",
